@@ -43,11 +43,8 @@ func HarnessC08Run() {
 	if mapEnv {
 		env = e.asMap()
 	}
-	if !vfNative() {
-		vfSharedBegin(c.prog, env, e)
-	}
-	want, werr := Run(c.prog, env)
 	if vfNative() {
+		// concurrent runs FIRST (a lazily initialised field is written by the first run that needs it)
 		var wg sync.WaitGroup
 		outs := make([]interface{}, 4)
 		errs := make([]error, 4)
@@ -61,6 +58,7 @@ func HarnessC08Run() {
 			}(i)
 		}
 		wg.Wait()
+		want, werr := Run(c.prog, env)
 		for i := range outs {
 			vfAssert((errs[i] == nil) == (werr == nil), "c08.concurrent-run-returns-what-it-returns-alone")
 			if errs[i] == nil && werr == nil {
@@ -69,6 +67,8 @@ func HarnessC08Run() {
 		}
 		return
 	}
+	vfSharedBegin(c.prog, env, e)
+	want, werr := Run(c.prog, env)
 	out1, err1 := Run(c.prog, env)
 	out2, err2 := Run(c.prog, env)
 	vfSharedEnd()
